@@ -18,7 +18,7 @@ var (
 	tapeOn  bool
 )
 
-var tapeOps = map[string]bool{"exp": true, "ln": true, "log10": true, "pow": true}
+var tapeOps = map[string]bool{"exp": true, "ln": true, "log10": true, "pow": true, "sqrt": true}
 
 func init() {
 	apd.VerifTape = func(kind string, n int64, d *apd.Decimal) {
@@ -34,6 +34,9 @@ func init() {
 			tapeBuf = append(tapeBuf, fmt.Sprintf("n%d", n))
 		case "ln.est":
 			tapeBuf = append(tapeBuf, "e"+showDec(d))
+		case "sqrt.iter":
+			// observation point, not a decision: the iterate the precision-doubling loop of Sqrt ended with
+			tapeBuf = append(tapeBuf, "a"+showDec(d))
 		}
 	}
 }
